@@ -308,7 +308,7 @@ impl Machine {
                 enc(v.cap),
                 v.uniq
             );
-            let readable = v.len <= 4096 && self.log_contents && (v.a != -100 || v.len == 0);
+            let readable = v.len <= 16384 && self.log_contents && (v.a != -100 || v.len == 0);      // 16384 = LogLimit of BytesLaws.tla
             if readable {
                 // the contents are read through a different public accessor each time (all of
                 // them must show the same bytes): Deref, AsRef, Borrow, Buf::chunk, iter(),
